@@ -108,6 +108,30 @@ func verifLemma_C39_merge_from_3(k0, k1, k2, v0, v1, v2, o0, o1, w0, w1 string) 
 	verifrt.Assert(vSame(other[0], vTag(o0, w0)), "clone-is-independent")
 }
 
+// Merging replaces the receiver's list by the argument's, whatever the two
+// lengths are, including an empty or nil argument (the result is then empty)
+// and an empty receiver.
+func verifLemma_C39_merge_from_shapes(k0, k1, v0, v1, o0, w0 string) {
+	full := Tags{vTag(k0, v0), vTag(k1, v1)}
+	full.MergeFrom(Tags{})
+	verifrt.Assert(len(full) == 0, "merge-from-empty-empties")
+	again := Tags{vTag(k0, v0), vTag(k1, v1)}
+	again.MergeFrom(nil)
+	verifrt.Assert(len(again) == 0, "merge-from-nil-empties")
+	var none Tags
+	none.MergeFrom(Tags{vTag(o0, w0)})
+	verifrt.Assert(len(none) == 1 && vSame(none[0], vTag(o0, w0)), "merge-into-nil")
+	same := Tags{vTag(k0, v0)}
+	same.MergeFrom(Tags{vTag(o0, w0)})
+	verifrt.Assert(len(same) == 1 && vSame(same[0], vTag(o0, w0)), "merge-same-length")
+	// merge, then merge from empty, then set: the sequence behaves like an ordered map
+	seq := Tags{vTag(k0, v0)}
+	seq.MergeFrom(Tags{vTag(k1, v1), vTag(o0, w0)})
+	seq.MergeFrom(Tags{})
+	seq.AddTag(vTag(k0, v0))
+	verifrt.Assert(len(seq) == 1 && vSame(seq[0], vTag(k0, v0)), "merge-empty-then-add")
+}
+
 // ---- C31: feature-ID order and protobuf round trip --------------------------------
 
 // FeatureID.Less is a strict total order (irreflexive, asymmetric, transitive,
